@@ -114,6 +114,9 @@ class MasterDriver:
         self.alloc_specs = {}       # (label, path) -> spec (accumulated, allocations are never removed)
         self.assignments = []       # (pattern, priority, key) in load order
         self.depth = 0
+        self.lost = {}              # server -> window in which the master learnt that its presence is gone
+        self.step_no = 0
+        self.state_event_step = {}  # server -> step in which an explicit server_state event was last issued
         self.cutter = None
         self._install_hooks()
 
@@ -237,10 +240,12 @@ class MasterDriver:
         cl = self.node_clients.pop(name, None)
         if cl is not None:
             self.srv.expire(cl.sid)
+            self.lost[name] = dict(t_lo=None, t_hi=None, step=self.step_no)     # window filled in when the master is told
         self.ops.append(('presence_down', name))
 
     def op_presence_up(self, name):
         if name not in self.node_clients and name in self.Z['servers']:
+            self.lost.pop(name, None)
             self._presence_up(name)
             # a rebooted node reports a new up_since (and sometimes new capacity)
             if self.rng.random() < 0.5:
@@ -286,6 +291,7 @@ class MasterDriver:
 
     def op_server_delete(self, name):
         self.api.delete_server(self.admin, name)
+        self.lost.pop(name, None)
         del self.Z['servers'][name]
         cl = self.node_clients.pop(name, None)
         if cl is not None:
@@ -293,6 +299,8 @@ class MasterDriver:
         self.ops.append(('server_delete', name))
 
     def op_server_state(self, name, state, apps):
+        self.lost.pop(name, None)       # an operator's explicit state event supersedes what presence implied
+        self.state_event_step[name] = self.step_no
         self.api.update_server_state(self.admin, name, state, apps)
         if state == 'frozen':
             self.marks.setdefault(name, set()).update(apps or [])
@@ -389,10 +397,12 @@ class MasterDriver:
             man['data_retention_timeout'] = spell_secs(rng, r)
         return man, demand
 
-    def op_create_apps(self):
+    def op_create_apps(self, priority=None):
         rng = self.rng
         app_id = rng.choice(self.appnames)
         man, demand = self.gen_manifest()
+        if priority is not None:
+            man['priority'] = priority
         count = rng.choice([1, 1, 2, 3, 4])
         ids = self.api.create_apps(self.admin, app_id, man, count)
         for i in ids:
@@ -546,6 +556,9 @@ class MasterDriver:
                     self.cutter = cutter
         t_hi = self.clock.peek()
         # a new master has seen everything that is stored now
+        for name, w in self.lost.items():
+            if w['t_lo'] is None:
+                w.update(t_lo=t_lo, t_hi=t_hi)
         z = self.z
         for path in (z.SERVER_PRESENCE, z.SCHEDULED, z.EVENTS, z.BLACKEDOUT_SERVERS):
             self.delivered[path] = self.srv.children(path)
@@ -576,7 +589,13 @@ class MasterDriver:
                     self.batch += 1
                     for a in cur:
                         self.app_batch.setdefault(a, (self.batch, 0))
+                t_lo = self.clock.peek()
                 self.master.watch_event_handlers[path](list(cur))
+                t_hi = self.clock.peek()
+                if path == z.SERVER_PRESENCE:
+                    for name, w in self.lost.items():
+                        if w['t_lo'] is None and name not in cur:
+                            w.update(t_lo=t_lo, t_hi=t_hi)
                 self.master.up_to_date = False
                 n += 1
         return n
@@ -618,7 +637,9 @@ class MasterDriver:
                 cap=list(zs['cap']), label=zs['label'], traits=trait_bits(zs['traits']),
                 parent=zs['parent'], valid_until=(pres or {}).get('valid_until') or 0,
                 state=state, since_lo=since, since_hi=since, spelled=zs['rec'],
-                unsched=self.marks.get(name, set()), present=name in self.node_clients)
+                unsched=self.marks.get(name, set()), present=name in self.node_clients,
+                lost=dict(self.lost[name]) if name in self.lost and self.lost[name]['t_lo'] is not None and
+                self.state_event_step.get(name, -1) < self.lost[name]['step'] else None)
         # apps (only those the master has been told about: delivered /scheduled)
         told = set(self.delivered.get(z.SCHEDULED, []))
         stored = set(self.srv.children(z.SCHEDULED))
